@@ -168,7 +168,7 @@ theorem stylesT_base (hord : ∀ l x, x ∈ order l → x ∈ l) (hn : ∀ k ∈
     simp [hF (shadow_facts p hp).2.2]
   simp only [buildWith, defsOf, stylesT, colourStyles, h_surround, h_fill, h_stroke, h_textCol, h_textOlCol, h_sw,
     h_text, h_arrow, h_arrowD, h_dash, h_pat, h_shadow, h_shadowD, List.map_nil, List.append_nil, List.map_append,
-    untagged_map_snd, List.nil_append]
+    untagged_map_snd]
 
 /-! ### a used class gets its rules -/
 
